@@ -92,6 +92,9 @@ where
     }
 
     pub(crate) async fn run(&mut self, io: &mut PhysLayer) -> RequestError {
+        // the RTU server runs the same session again after it re-opens its port: bytes left over
+        // from before the failure must not be parsed as the beginning of the new stream
+        self.reader.reset();
         loop {
             if let Err(err) = self.run_one(io).await {
                 tracing::warn!("session error: {}", err);
